@@ -151,6 +151,14 @@ partial def predict (tab : List Tab) (cmds : List Cmd) (plan : List String) (st0
       (out ++ ts, v)
     | item :: plan' =>
       if item == "R" then go plan' pos st (out ++ ["R" ++ stStr st]) v
+      else if item == "S" ∨ item.startsWith "X" then
+        -- snapshot, restore (into a fresh store, or — X<j> — onto a replica holding another prefix):
+        -- the model says identity either way (c13_snapshot_any_prefix: Restore REPLACES the state)
+        let tag := if item == "S" then "S" else "X"
+        match restore (fun b => some (String.fromUTF8! ⟨b.toArray⟩)) { kv := "stale", applied := 0 }
+                (snapshot (fun (s : String) => s.toUTF8.toList) st) with
+        | some st' => go plan' pos (if st.applied = 0 then st else st') (out ++ [tag ++ stStr (if st.applied = 0 then st else st')]) v
+        | none => (out ++ [tag ++ ":restoreerr"], v)
       else if item == "S" then
         -- snapshot, restore into a fresh store: the model says identity
         match restore (fun b => some (String.fromUTF8! ⟨b.toArray⟩)) { kv := "", applied := 0 }
@@ -198,7 +206,7 @@ def classify (m i : List String) : String :=
     | [], [] => "ok"
     | a :: as, b :: bs =>
       if a == b then go as bs
-      else if a.startsWith "S" then "viol:snapshot-restore-differs"
+      else if a.startsWith "S" ∨ a.startsWith "X" then "viol:snapshot-restore-differs"
       else if a.startsWith "R" then "viol:restart-differs"
       else if a.startsWith "I" then "viol:fresh-store-differs"
       else "viol:batch-not-transparent"
